@@ -144,7 +144,7 @@ def message_for(lay, st, rnd):
     a = st["a"]
     if a == "Connect":
         return lay.connect_req(services=rnd.choice([TTX, VPS, TTX | WSS, CC]) if st["s"] else 0, strict=rnd.choice([-1, 0, 1, 2]),
-                               buffers=rnd.choice([1, 1, 2, 5]))
+                               buffers=rnd.choice([1, 1, 2, 5]), flags=proxy.CLIENT_NO_STATUS_IND if st.get("nsi") else 0)
     if a == "ConnectRej":
         return lay.connect_req(services=TTX, compat=0x999) if rnd.random() < 0.5 else lay.connect_req(services=0x100)
     if a == "PidReq":
@@ -152,8 +152,8 @@ def message_for(lay, st, rnd):
     if a == "ServiceReq":
         return lay.service_req(rnd.choice([WSS, VPS | CC, TTX]) if st["s"] else 0, strict=rnd.choice([-1, 0, 1, 2]), reset=1)
     if a == "TokenReq":
-        return lay.token_req(st["p"], 1 if st["v"] else 0, sub_prio=rnd.choice([0x10, 0x10, 0x20, 0x30]),
-                             min_duration=rnd.choice([0, 100000]))
+        sub, dur = rnd.choice([0x10, 0x10, 0x20, 0x30]), rnd.choice([0, 100000])
+        return lay.token_req(st["p"], 1 if st["v"] else 0, sub_prio=st.get("sub", sub), min_duration=st.get("dur", dur))
     if a == "Notify":
         f = 0
         for n in st["f"]:
@@ -288,6 +288,11 @@ def validate(ctx, ses_logs, label):
     with open(path, "w") as f:
         for recs, info in ses_logs:
             for i, r in enumerate(recs):
+                if r.get("e") == "chg" and r.get("nsi"):
+                    # outside the statement of C19 (status indications): noted in the evidence, not a violation
+                    note = "CHN_CHANGE_IND queued for a client connected with NO_STATUS_IND (ProxyToken!ChangeIndTo says: never)"
+                    if note not in ctx.notes:
+                        ctx.notes.append(note)
                 f.write(json.dumps(r) + "\n")
                 where.append((info, i))
     if os.environ.get("VERIF_KEEP"):
@@ -402,8 +407,12 @@ def confirm_hang(ctx, lay, rp):
 # ------------------------------------------------------------------------------------------------ directed schedules
 
 def A(k): return dict(a="Accept", c=k)
-def C(k, s=False): return dict(a="Connect", c=k, s=s)
-def T(k, p, v): return dict(a="TokenReq", c=k, p=p, v=v)
+def C(k, s=False, nsi=False): return dict(a="Connect", c=k, s=s, nsi=nsi)      # nsi: client_flags = NO_STATUS_IND
+def T(k, p, v, sub=None, dur=None):
+    r = dict(a="TokenReq", c=k, p=p, v=v)
+    if sub is not None:
+        r.update(sub=sub, dur=dur or 0)        # sub-priority / min_duration fixed: whom the scheduler prefers is determined
+    return r
 def N(k, *f): return dict(a="Notify", c=k, f=list(f))
 
 
@@ -427,6 +436,26 @@ DIRECTED = [
                     dict(a="WrongState", c=2, st="fwd"), A(3), dict(a="WrongState", c=3, st="wait"), C(1), dict(a="HdrLegal", c=1),
                     dict(a="Disconnect", c=1), A(3), dict(a="PidReq", c=3), A(3), dict(a="ConnectRej", c=3), A(3), dict(a="Suspend", c=3),
                     dict(a="ReclaimCnf", c=3), dict(a="CloseReq", c=3)]),
+    # mixed populations: clients connected with VBI_PROXY_CLIENT_NO_STATUS_IND (as libzvbi-chains does).  The holder is one
+    # of them, at background priority (granted while alone: a new connection starts at INTERACTIVE and would keep the
+    # scheduler off); a second background client is preferred by the scheduler (higher sub-priority):
+    # the reclaim is a request, not a status indication - it is sent, and nobody is granted before the confirmation
+    ("nsi-holder-subprio", [A(1), C(1, True, nsi=True), T(1, 1, True, 0x10, 100000), A(2), C(2, True), T(2, 1, True, 0x30, 0),
+                            N(2, "FLUSH"), dict(a="Ioctl", c=2), dict(a="ReclaimCnf", c=1), N(2, "TOKEN"), T(1, 1, True, 0x10, 0),
+                            dict(a="CloseReq", c=2), N(1, "RELEASE")]),
+    # ... preferred because the holder's min_duration (0) has expired; a third client flushes; the holder disconnects
+    # instead of confirming
+    ("nsi-holder-expired", [A(1), C(1, True, nsi=True), T(1, 1, True, 0x10, 0), A(2), C(2, True), T(2, 1, True, 0x10, 0), A(3), C(3),
+                            N(3, "FLUSH"), dict(a="Disconnect", c=1), N(2, "TOKEN", "FLUSH"), T(3, 1, True, 0x10, 0),
+                            dict(a="ReclaimCnf", c=2), N(3, "RELEASE")]),
+    # the other way round: the preferred client has the flag, the holder has not; then the flagged one holds the token and the
+    # other is preferred; then both have the flag
+    ("nsi-second", [A(1), C(1, True), T(1, 1, True, 0x10, 100000), A(2), C(2, True, nsi=True), T(2, 1, True, 0x30, 100000),
+                    N(1, "FLUSH"), dict(a="ReclaimCnf", c=1), T(1, 1, True, 0x40, 0), N(1, "FLUSH"), dict(a="ReclaimCnf", c=2),
+                    T(1, 2, False), dict(a="ReclaimCnf", c=1), T(1, 1, True, 0x40, 0)]),
+    ("nsi-both", [A(1), C(1, True, nsi=True), T(1, 1, True, 0x20, 0), A(2), C(2, False, nsi=True), T(2, 1, True, 0x20, 0),
+                  dict(a="PartialHdr", c=1), N(2, "FLUSH"), dict(a="ReclaimCnf", c=1), N(2, "TOKEN"), T(1, 1, True, 0x20, 0),
+                  dict(a="ReclaimCnf", c=2), dict(a="CloseReq", c=1)]),
 ]
 
 _ACT = re.compile(r"^State \d+: <(\w+)\(([^)]*(?:\{[^}]*\})?[^)]*)\) line")
@@ -447,7 +476,7 @@ def schedule_from_counterexample(text):
         if name == "Accept":
             out.append(A(k))
         elif name == "Connect":
-            out.append(C(k, nums[1] == "TRUE"))
+            out.append(C(k, nums[1] == "TRUE", len(nums) > 2 and nums[2] == "TRUE"))
         elif name == "ServiceReq":
             out.append(dict(a="ServiceReq", c=k, s=nums[1] == "TRUE"))
         elif name == "TokenReq":
@@ -744,7 +773,10 @@ def run(ctx):
     mc(ctx, "ProxyToken", "MC_ProxyToken_q", 900, coverage=not quick)
     cex = {}
     for cfg, inv in (("MC_ProxyToken_orig", "SingleOwner"), ("MC_ProxyToken_flush", "NoCrash"), ("MC_ProxyToken_regrant", "OneHolder"),
-                     ("MC_ProxyToken_reach", "NeverReclaimed")):
+                     ("MC_ProxyToken_reach", "NeverReclaimed"),
+                     # mixed populations (clients with / without NO_STATUS_IND): a reclaim of a flagged holder beside an asking
+                     # unflagged client is reachable; the design "no reclaim for a NO_STATUS_IND client" gives two holders
+                     ("MC_ProxyToken_nsireach", "NeverMixedReclaim"), ("MC_ProxyToken_nsiskip", "OneHolder")):
         cex[cfg] = mc(ctx, "ProxyToken", cfg, 600, expect=inv)
     mc(ctx, "ProxyConn", "MC_ProxyConn_2" if quick else "MC_ProxyConn_t", 600 if quick else 3000, heap="8g")
     for cfg, inv in (("MC_ProxyConn_hdrlen", "NoCrash"), ("MC_ProxyConn_partial", "NoCrash")):
@@ -763,7 +795,7 @@ def run(ctx):
 
     # ---- schedules
     scheds = [(n, [dict(s) for s in st]) for n, st in DIRECTED]
-    for cfg in ("MC_ProxyToken_orig", "MC_ProxyToken_flush", "MC_ProxyToken_regrant"):
+    for cfg in ("MC_ProxyToken_orig", "MC_ProxyToken_flush", "MC_ProxyToken_regrant", "MC_ProxyToken_nsiskip", "MC_ProxyToken_nsireach"):
         st = schedule_from_counterexample(cex[cfg].violation["text"])
         if st:
             scheds.append(("cex-" + cfg[14:], st))
@@ -782,8 +814,8 @@ def run(ctx):
             k += 1
     scheds = [(n, st, ctx.seed * 7919 + i) for i, (n, st) in enumerate(scheds)]
     ctx.sample(dict(source="directed schedule d7-second-owner", steps=DIRECTED[0][1]))
-    if len(scheds) > len(DIRECTED) + 3:
-        ctx.sample(dict(source="TLC random walk", steps=scheds[len(DIRECTED) + 3][1][:14]))
+    if len(scheds) > len(DIRECTED) + 5:
+        ctx.sample(dict(source="TLC random walk", steps=scheds[len(DIRECTED) + 5][1][:14]))
     run_schedules(ctx, lay, scheds, "sched")
     if not quick:
         run_schedules(ctx, lay, [(n + "/thread", [dict(s) for s in st], sd) for n, st, sd in scheds[:60]], "sched-thread", thread=True)
